@@ -211,6 +211,11 @@ const REACHES: &[(&str, &str, &str)] = &[
     ("in_loop_twice", "{% for i in [1, 2] %}{% include 't0' %}{% endfor %}", ""),
     ("filtered_capture_at_top_of_extending_host", "{% extends 'hb' %}{% set cap %}{% filter lower %}{% include 't0' %}{% endfilter %}{% endset %}{% block hbk %}{{ cap }}{% endblock %}", "<{% block hbk %}{% endblock %}>"),
     ("call_block_capture_at_top_of_extending_host", "{% extends 'hb' %}{% macro w() %}{{ caller() }}{% endmacro %}{% set cap %}{% call w() %}{% include 't0' %}{% endcall %}{% endset %}{% block hbk %}{{ cap }}{% endblock %}", "<{% block hbk %}{% endblock %}>"),
+    // the host's own inheritance chain is loaded while the chain under test is included, twice, from a
+    // host whose names sort before (hb) and after (zzb) the names of the chain (t0, t1, ...)
+    ("included_twice_in_child_block", "{% extends 'hb' %}{% block hbk %}{% include 't0' %}|{% include 't0' %}{% endblock %}", "<{% block hbk %}{% endblock %}>"),
+    ("included_twice_in_child_block_of_late_named_host", "{% extends 'zzb' %}{% block hbk %}{% include 't0' %}|{% include 't0' %}{% endblock %}", "ZZB:<{% block hbk %}{% endblock %}>"),
+    ("imported_twice_in_late_named_host", "{% extends 'zzb' %}{% block hbk %}{% import 't0' as ma %}{% import 't0' as mb %}{% include 't0' %}{% endblock %}", "ZZB:<{% block hbk %}{% endblock %}>"),
 ];
 
 fn reach_expect(reach: usize, out: &str) -> String {
@@ -218,6 +223,9 @@ fn reach_expect(reach: usize, out: &str) -> String {
         0 => out.to_string(),
         1 => format!("x{}y", out),
         2 | 3 | 8 => format!("<{}>", out),
+        9 => format!("<{}|{}>", out, out),
+        10 => format!("<{}|{}>", out, out),
+        11 => format!("<{}>", out),
         4 => format!("[{}]", out),
         5 => format!("{}|{}", out, out),
         6 => format!("{}{}", out, out),
@@ -236,7 +244,10 @@ fn render_chain(templates: &[Tmpl], reach: usize) -> Result<Result<String, Error
             env.add_template("h", host).map_err(|e| e.kind())?;
         }
         if !base.is_empty() {
-            env.add_template("hb", base).map_err(|e| e.kind())?;
+            // the reach's host template names its base itself: "hb" or "zzb"
+            let base_name = if host.contains("'zzb'") { "zzb" } else { "hb" };
+            let base_src = base.strip_prefix("ZZB:").unwrap_or(base);
+            env.add_template(base_name, base_src).map_err(|e| e.kind())?;
         }
         let tm = env.get_template(if host.is_empty() { "t0" } else { "h" }).map_err(|e| e.kind())?;
         tm.render(context! { parent => "t1", yes => true, no => false }).map_err(|e| e.kind())
@@ -596,7 +607,7 @@ pub fn main(args: Args) -> i32 {
             level: "exploration",
             tier: args.tier,
             seed: args.seed,
-            rule: format!("all inheritance chains of length 1..={} in which every non-root template assigns each block of the alphabet {{a, b (nested in a in the root), c}} one of {{absent, override, override + super() before, override around super(), super() twice}} (5^3 per level), x root with/without block c, x extends form of the most derived template (static name, name from the context, inside a taken if, inside a not-taken if), x 9 ways of reaching the most derived template for chains up to length {} (rendered directly; included at top level, in a child block, in a macro called twice, in a loop body; include captured by a set block in a plain host and at the top level of an extending host, there also below a filter block and below a call block); expected output from a 60-line resolver (most derived definition, per-block parent cursor for super(), nested block tags render the most derived definition, text outside blocks of extending templates discarded, super() without parent fails); plus block fragments through a reused state (after a full render of every chain up to length {} the blocks a, b, c, a, b are rendered through State::render_block, with a call in the root's block a that fails exactly once at every position 1..6 or never; every fragment must equal the resolver's, and a fragment that failed must leave the state as it was); plus 50 hand-written include / import / error cases (include placements and name forms incl. lists and ignore missing, what an import exposes, extends and include cycles of length 1..3, double extends, missing parent, super() without parent or outside a block, required blocks, self.block()) each run under a 10 s wall cap so that a hang is a failure; every fixed case that renders is also included 120 times from one host render and must give its output 120 times. distinct non-trivial = chains that render as resolved + fixed cases", max_len, reach_len, args.tier.pick(2, 3)),
+            rule: format!("all inheritance chains of length 1..={} in which every non-root template assigns each block of the alphabet {{a, b (nested in a in the root), c}} one of {{absent, override, override + super() before, override around super(), super() twice}} (5^3 per level), x root with/without block c, x extends form of the most derived template (static name, name from the context, inside a taken if, inside a not-taken if), x 12 ways of reaching the most derived template for chains up to length {} (rendered directly; included at top level, in a child block, in a macro called twice, in a loop body; include captured by a set block in a plain host and at the top level of an extending host, there also below a filter block and below a call block; included / imported twice from the block of an extending host whose own names sort before and after the names of the chain); expected output from a 60-line resolver (most derived definition, per-block parent cursor for super(), nested block tags render the most derived definition, text outside blocks of extending templates discarded, super() without parent fails); plus block fragments through a reused state (after a full render of every chain up to length {} the blocks a, b, c, a, b are rendered through State::render_block, with a call in the root's block a that fails exactly once at every position 1..6 or never; every fragment must equal the resolver's, and a fragment that failed must leave the state as it was); plus 50 hand-written include / import / error cases (include placements and name forms incl. lists and ignore missing, what an import exposes, extends and include cycles of length 1..3, double extends, missing parent, super() without parent or outside a block, required blocks, self.block()) each run under a 10 s wall cap so that a hang is a failure; every fixed case that renders is also included 120 times from one host render and must give its output 120 times. distinct non-trivial = chains that render as resolved + fixed cases", max_len, reach_len, args.tier.pick(2, 3)),
             exhaustive: true,
             bound: json!({"max_chain_len": max_len, "modes": ["absent", "override", "super_before", "super_inside", "super_twice"]}),
             assumptions: vec!["the resolver in c06.rs is the trusted base for chains; the expectations of the fixed cases were written by hand from the documentation".into()],
